@@ -20,7 +20,7 @@ ASSUMPTIONS = [
     'handler tables are read through the internal names _handlers/_globals/_tasks (inconclusive if they disappear)',
     'a generator handler that yields None right after catching TimeoutError is not generated',
 ]
-REQUIRED = ['several_handlers_waiting_for_one_event_instance', 'callee_on_explicit_channel', 'callee_with_success_channels', 'falsy_value_after_call', 'call_by_object', 'wait_by_object', 'wait_by_name', 'nested_call', 'sequential_calls', 'callee_raises_plain',
+REQUIRED = ['awaited_event_fired_to_two_channels', 'awaited_by_name_while_fired_to_two_channels', 'several_handlers_waiting_for_one_event_instance', 'callee_on_explicit_channel', 'callee_with_success_channels', 'falsy_value_after_call', 'call_by_object', 'wait_by_object', 'wait_by_name', 'nested_call', 'sequential_calls', 'callee_raises_plain',
             'callee_generator_raises_first_step', 'callee_generator_raises_after_yield', 'callee_multi_handler', 'timeout_expired',
             'timeout_not_expired', 'timeout_zero', 'roots_in_flight_2plus', 'same_event_type_called_concurrently']
 REQUIRED_OBLIGATIONS = ['RESUME_ONCE', 'RESULT', 'AFTER_CALLEE', 'TIMEOUT_NOT_EARLY', 'CALLER_FEEDBACK', 'CALLER_VALUE', 'RESIDUE']
@@ -152,6 +152,10 @@ def evaluate(case, w, norm, before, after, comps):
             problems.append(('AFTER_CALLEE', detail))
     if any(h.get('channel') for h in case['handlers']):
         marks.add('callee_on_explicit_channel')
+    if any(a[0] in ('call', 'wait', 'waitname') and len(a[1].get('channels', ())) >= 2 for h in case['handlers'] for a in h['body']):
+        marks.add('awaited_event_fired_to_two_channels')
+    if any(a[0] == 'waitname' and len(a[1].get('channels', ())) >= 2 for h in case['handlers'] for a in h['body']):
+        marks.add('awaited_by_name_while_fired_to_two_channels')
     if any(a[0] in ('call', 'wait', 'waitname') and a[1].get('success_channels') for h in case['handlers'] for a in h['body']):
         marks.add('callee_with_success_channels')
     for h in case['handlers']:
@@ -240,6 +244,15 @@ def corpus():
                     ['call', dict(E('b', flags={'success': True}, **SC), channels=['a']), {'timeout': 30}], ['ret', 'end']], gen=True),
         dict(HD(2, 'b', [['yield', 'b1'], ['ret', 'b2']], gen=True), channel='a'), dict(HD(3, 'c', [['ret', 'c']]), channel='a')],
         'fires': [E('a', flags=SF), E('a', flags=SF)]})
+    # the awaited event is fired to two channels at once, its handlers live on both; awaited by object, by name (from a component that
+    # listens on every channel), called
+    AB = {'channels': ['a', 'b']}
+    for kind in ('call', 'wait', 'waitname'):
+        cs.append({'name': 'two-channels-' + kind, 'handlers': [
+            HD(1, 'a', [[kind, dict(E('foo'), **AB)], ['yield', 'x'], [kind, dict(E('bar', flags={'success': True}), channels=['b', 'a'])], ['ret', 'end']], gen=True),
+            dict(HD(2, 'foo', [['ret', 'A']]), channel='a'), dict(HD(3, 'foo', [['yield', 'B1'], ['ret', 'B2']], gen=True), channel='b'),
+            dict(HD(4, 'bar', [['ret', 'C']], prio=1), channel='b'), dict(HD(5, 'bar', [['raise']]), channel='a')],
+            'fires': [E('a', flags=SF), E('a', flags=SF)] if kind != 'waitname' else [E('a', flags=SF)]})
     # falsy (non-None) values relayed right after a call / wait, and a bare yield right after a call
     cs.append({'name': 'falsy-relay', 'handlers': [
         HD(1, 'a', [['call', E('b')], ['yieldlit', 0], ['wait', E('b')], ['yieldlit', ''], ['call', E('b')], ['yield', None], ['yieldlit', False]], gen=True),
@@ -348,12 +361,14 @@ def gen_case(rng):
                 seen.add(a[1]['name'])
     # some callee event types live on an explicit channel: their handlers listen there and every call/wait/fire addresses it
     on_chan = {nm for lv in names for nm in names[lv] if rng.random() < 0.3}
+    # ... and some of those on two channels at once: their handlers are spread over both, and they are fired to both
+    two_chan = {nm: rng.choice([['a', 'b'], ['b', 'a']]) for nm in sorted(on_chan) if rng.random() < 0.4}
     for h in handlers:
         if h['name'] in on_chan:
-            h['channel'] = 'a'
+            h['channel'] = rng.choice('ab') if h['name'] in two_chan else 'a'
         for a in h['body']:
             if a[0] in ('call', 'wait', 'waitname', 'fire') and a[1]['name'] in on_chan:
-                a[1]['channels'] = ['a']
+                a[1]['channels'] = list(two_chan.get(a[1]['name'], ['a']))
                 if rng.random() < 0.35:
                     a[1]['success_channels'] = ['elsewhere']
                     if rng.random() < 0.5:
